@@ -22,6 +22,11 @@ inline void ws(vf::Rng &r, std::string &o, const Opts &op) {
 
 inline void gen_string_body(vf::Rng &r, std::string &o, const Opts &op) {
     unsigned n = r.chance(1, 8) ? 0 : r.range(1, 8);
+    if (r.chance(1, 60)) {
+        // long strings (with escapes): scratch buffers grow past their first capacity classes
+        static const unsigned big[] = {130, 255, 256, 257, 300, 515, 1030};
+        n                           = big[r.below(7)];
+    }
     for (unsigned i = 0; i < n; ++i) {
         switch (r.below(14)) {
             case 0: o += "\\\""; break;
